@@ -38,7 +38,7 @@ CHECKS = {
                 text="12 container kinds, 12 alias spellings (incl. explicit None and zero values) and max_read (quarter-sample resolution, through bytes, regions, sources, lazy wav) compared with the run on raw bytes for inputs of <=3 (quick) / 4 (thorough) windows with unbounded sample count, window size and counts.",
                 ref="§5 C09"),
     "C10": dict(level="model_checking", tech="symbolic execution over an uninterpreted byte sequence (segment lists, LIA lengths), z3 decides block identity and existence",
-                text="K consecutive reads (6 quick / 12 thorough) of the real AudioReader stack with source length, block, hop and max_read as unbounded integers; all overlap/limiter/recorder combinations and five input kinds (incl. standard input with short read1 chunks), a premature read before open(); block/hop sizes from bit-exact doubles == floor(fl(dur*rate)) at five rates (QF_FP lemma).",
+                text="K consecutive reads (6 quick / 12 thorough) of the real AudioReader stack with source length, block, hop and max_read as unbounded integers; all overlap/limiter/recorder combinations and five input kinds (incl. standard input with short read1 chunks), a premature read before open(); block/hop sizes from bit-exact doubles == floor(fl(dur*rate)) at five rates (QF_FP lemma). Where a changed size computation leaves the FP fragment, z3-chosen doubles next to an integer product are replayed on the real constructor.",
                 ref="§5 C10"),
     "C11": dict(level="model_checking", tech="symbolic execution + z3 against a model state; file sources through I/O stubs",
                 text="Buffer source from an arbitrary position through every sequence of K operations (2 quick / 3 thorough) with unbounded arguments; raw/wav/stdin sources through every sequence of 4/5 operations (read, read(None), close/open, redundant open; stdin may deliver short chunks through read1 and goes on after close/open); bit-exact int(rate*ms/1000) lemma by cvc5 for |rate*ms| <= 2^24 (quick) / 2^49 (thorough).",
